@@ -58,3 +58,14 @@ CORPUS = [
     T('c02-leaf-labels-read-as-positions', TM, "    tree.resolve_polytomies(update_bipartitions=True)\n", "    for taxon in tree.taxon_namespace:\n        if taxon.label.isdigit():\n            taxon.label = taxa[int(taxon.label) - 1].id\n    tree.resolve_polytomies(update_bipartitions=True)\n",
       expect=[('C02.N', 'leaf-labels-are-taxon-names-never-positions')]),
 ]
+CORPUS += [
+    T('c02-kept-lengths-floored', TM, "                float(node.edge_length)\n", "                max(1.0e-6, float(node.edge_length))\n", expect=[('C02.N', 'UnRootedTreeModel.from_json::kept-lengths-are-the-newick-lengths')]),
+    T('c02-short-sequences-padded-to-the-first-listed-length', 'torchtree/evolution/alignment.py', "        indexing = {taxon.id: idx for idx, taxon in enumerate(taxa)}\n",
+      "        for idx, sequence in enumerate(sequences):\n            if len(sequence.sequence) < self._sequence_size:\n                sequences[idx] = Sequence(sequence.taxon, sequence.sequence.ljust(self._sequence_size, '-'))\n        indexing = {taxon.id: idx for idx, taxon in enumerate(taxa)}\n",
+      expect=[('C02.N', 'Alignment.__init__::stored-sequences-do-not-depend-on-list-order')]),
+    T('c02-benign-short-sequences-padded-to-the-longest', 'torchtree/evolution/alignment.py', "        indexing = {taxon.id: idx for idx, taxon in enumerate(taxa)}\n",
+      "        longest = max(len(s.sequence) for s in sequences)\n        for idx, sequence in enumerate(sequences):\n            if len(sequence.sequence) < longest:\n                sequences[idx] = Sequence(sequence.taxon, sequence.sequence.ljust(longest, '-'))\n        indexing = {taxon.id: idx for idx, taxon in enumerate(taxa)}\n",
+      benign=True),
+    Mut('c02-one-scaler-per-rate-category', 'torchtree/evolution/tree_likelihood.py', 'calculate_treelikelihood_discrete_rescaled', 'scaler, _ = torch.max(…',
+        'scaler, _ = torch.max(partial.view(*partial.shape[:-2], -1, *partial.shape[-1:]), -2, keepdim=True)', expect=[('C02.W', 'scalers::calculate_treelikelihood_discrete_rescaled::one-scaler-per-site-over-category-and-state')]),
+]
